@@ -503,7 +503,7 @@ func init() {
 		},
 	})
 	// ------------------------------------------------------------ C06
-	Register(&metaCheck{id: "C06", level: "exploration",
+	c06meta := &metaCheck{id: "C06", level: "exploration",
 		rule: "entries of every fate (executed transfer, held conversion, rejected for balance, rejected by a rule) are repeated byte for byte in the same block (adjacent and separated), the next block, later blocks, across blocks without rates, after execution, after rejection and while held; the world is synced with and without the repeats and must be identical at every height; in addition no entry hash may have more than one history row or more than one holding row; distinct = distinct (fate of the original, distance in blocks) pairs",
 		gen: func(seed uint64, tier string) (*Scenario, error) {
 			rng := rand.New(rand.NewSource(int64(seed)))
@@ -555,7 +555,61 @@ func init() {
 			}
 			return nil
 		},
-	})
+	}
+	// The second half of C06: the same entry must also not be *executed* twice
+	// without any repeat on the chain (a held request paid again at a later
+	// height, a batch applied by two code paths). That is a refinement
+	// question: worlds with held batches across outages are compared with the
+	// model and a balance that moved by a whole multiple of the expected change
+	// is C06's.
+	c06ref := &refineCheck{id: "C06",
+		rule: "in addition (every other seed): worlds with conversions and PEG requests held across outages in every era, byte-identical repeats among them, compared block by block with the reference model; a balance that moved by a whole multiple >= 2 of the expected change is reported (one signature, one execution)",
+		profile: func(rng *rand.Rand, tier string) world.Profile {
+			p := baseProfile(rng)
+			p.StartEra = []int{eraTxConv, eraConvLimit - 1, eraConvLimit, eraV4 - 1, eraV4, eraV20 - 1, eraPIP10}[rng.Intn(7)]
+			p.Blocks = 30 + rng.Intn(40)
+			for i := range p.Gaps {
+				p.Gaps[i] = uint32(6 + rng.Intn(20))
+			}
+			p.PBurn = 0.8
+			p.POutage, p.OutageMax = 0.2, 1+rng.Intn(4)
+			p.TxMean = 1.5
+			p.PConv = 0.5
+			p.PDup = 0.15
+			return p
+		},
+		extra:      func(rng *rand.Rand, g *world.Gen) func(uint32, *world.BlockSpec) { return pegRequests(rng, g) },
+		nontrivial: func(w *world.World, l *model.Ledger) []string { return causeKeys(l, model.CPegBank, model.CConv) },
+	}
+	Register(&dualCheck{a: c06meta, b: c06ref})
+}
+
+// dualCheck alternates two checks of one property by seed parity; the
+// scenario records which one produced it.
+type dualCheck struct {
+	a, b Check
+}
+
+func (d *dualCheck) ID() string    { return d.a.ID() }
+func (d *dualCheck) Level() string { return d.a.Level() }
+func (d *dualCheck) Rule() string  { return d.a.Rule() + "; " + d.b.Rule() }
+func (d *dualCheck) pick(sc *Scenario) Check {
+	var probe map[string]json.RawMessage
+	json.Unmarshal(sc.Plan, &probe)
+	if _, ok := probe["kind"]; ok {
+		return d.a
+	}
+	return d.b
+}
+func (d *dualCheck) Gen(seed uint64, tier string) (*Scenario, error) {
+	if seed%2 == 0 {
+		return d.a.Gen(seed, tier)
+	}
+	return d.b.Gen(seed, tier)
+}
+func (d *dualCheck) ShrinkPlan(sc *Scenario) []json.RawMessage { return d.pick(sc).ShrinkPlan(sc) }
+func (d *dualCheck) Run(env *Env, sc *Scenario) (*Violation, error) {
+	return d.pick(sc).Run(env, sc)
 }
 
 // explainMeta re-syncs both worlds up to height h and lists differing status
